@@ -72,7 +72,8 @@ def blob_key(n, ann, hname):
 
 def alphabet(name):
     from vf import udpfab
-    return {'full': udpfab.HIT_FULL, 'quiescent': udpfab.HIT_QUIESCENT, 'lossy': udpfab.LOSSY}[name]
+    return {'full': udpfab.HIT_FULL, 'quiescent': udpfab.HIT_QUIESCENT, 'lossy': udpfab.LOSSY,
+            'full+hold': udpfab.HIT_HOLD}[name]
 
 
 # =====================================================================================================================
@@ -157,15 +158,51 @@ def canon(obs):
 # =====================================================================================================================
 # hit half
 # =====================================================================================================================
-def hit_case(net, ann, key, prefix=(), bound=0, alpha_name='full', entry='finder'):
+IDLE = 1200       # virtual seconds after which a contact that answered is no longer "known good" (CHECK_REFRESH_INTERVAL
+                  # is 720 s, and a node pings whoever stored on it 300 s later): lookups then confirm peers with a ping
+
+
+def announce_phase(net, ann, key, drive):
+    from vf.udpfab import node_ip
+    from refs.kademlia_ref import closest_k
+    lp = net.loop
+    t0 = lp.time()
+    status, task = drive(net.nodes[ann].announce_blob(key.hex()))
+    st, exc = task_outcome(status, task, lp)
+    stored = [idx_of(net, i) for i in task.result()] if st == 'done' else []
+    ann_peer = (node_ip(ann), TCP_PORT)
+    holding = []
+    for i, nd in enumerate(net.nodes):
+        for p in nd.protocol.data_store.get_peers_for_blob(key):
+            if (p.address, p.tcp_port) == ann_peer:
+                holding.append(i)
+    ideal = [idx_of(net, i) for i in closest_k(key, net.ids, K, exclude=[net.ids[ann]])]
+    return {'status': st, 'exc': exc, 'stored': sorted(stored), 'holding': sorted(holding),
+            'ideal': sorted(ideal), 'duration': round(lp.time() - t0, 3)}
+
+
+def hit_prepare(net, ann, key, idle):
+    """Default-schedule prefix of a lookup-phase-only exploration: announce, then `idle` seconds of periodic traffic.
+    Mutates the network (call it in the process that is forked per execution, or at the start of a replay)."""
+    lp = net.loop
+    lp.activate()
+    a = announce_phase(net, ann, key, lambda coro: lp.run_task(coro, max_steps=HIT_STEPS))
+    if idle:
+        lp.advance_to(lp.time() + idle, max_steps=2_000_000)
+    return a
+
+
+def hit_case(net, ann, key, prefix=(), bound=0, alpha_name='full', entry='finder', idle=0, prepared=None):
     """announce by node `ann`, then every other node looks the key up (sequentially) through the entry point(s) named by
     `entry`: 'finder' = Node.get_iterative_value_finder, 'accumulate' = Node.accumulate_peers (the queue interface the
     downloader uses: found blob peers are confirmed with a DHT ping before they are queued), 'both'.
+    `idle` virtual seconds of periodic traffic (default schedule) separate announce and lookups.  With `prepared` (the
+    result of hit_prepare) the announce+idle prefix has already run and only the lookups are explored.
     Returns (trace, obs)."""
     import asyncio
     from vf.explore import Chooser
     from vf.udpfab import node_ip
-    from refs.kademlia_ref import closest_k, is_valid_peer_address
+    from refs.kademlia_ref import is_valid_peer_address
     lp = net.loop
     lp.activate()
     lp.trace_digest = hashlib.blake2b(digest_size=8)
@@ -180,19 +217,13 @@ def hit_case(net, ann, key, prefix=(), bound=0, alpha_name='full', entry='finder
 
     n = net.n
     obs = {}
-    t0 = lp.time()
-    status, task = drive(net.nodes[ann].announce_blob(key.hex()))
-    st, exc = task_outcome(status, task, lp)
-    stored = [idx_of(net, i) for i in task.result()] if st == 'done' else []
     ann_peer = (node_ip(ann), TCP_PORT)
-    holding = []
-    for i, nd in enumerate(net.nodes):
-        for p in nd.protocol.data_store.get_peers_for_blob(key):
-            if (p.address, p.tcp_port) == ann_peer:
-                holding.append(i)
-    ideal = [idx_of(net, i) for i in closest_k(key, net.ids, K, exclude=[net.ids[ann]])]
-    obs['announce'] = {'status': st, 'exc': exc, 'stored': sorted(stored), 'holding': sorted(holding),
-                       'ideal': sorted(ideal), 'duration': round(lp.time() - t0, 3)}
+    if prepared is not None:
+        obs['announce'] = prepared
+    else:
+        obs['announce'] = announce_phase(net, ann, key, drive)
+        if idle:
+            lp.advance_to(lp.time() + idle, max_steps=2_000_000)
     obs['lookups'] = []
     obs['queue_lookups'] = []
     for s in range(n):
@@ -237,6 +268,7 @@ def hit_case(net, ann, key, prefix=(), bound=0, alpha_name='full', entry='finder
             worker.cancel()
             lp.run_until(worker.done, max_steps=2000)
             obs['queue_lookups'].append({'searcher': s, 'status': status, 'hit': ann_peer in got, 'queued': sorted(got),
+                                         'idle': idle,
                                          'duration': took, 'datagrams': lp.stats['sent'] - pings0,
                                          'invalid': [f for f in sorted(got) if not is_valid_peer_address(*f)]})
     obs['deviations'] = devs
@@ -295,8 +327,8 @@ def note_hit(res, case, obs, fixed):
     res.count('evaluations')
     res.count('transitions', obs['work'][0] + obs['work'][1])
     ck = (case['n'], tuple(case['order']), case['stagger'], case['ann'], case['hash'])
-    res.distinct_add('states', ('hit', ck, case.get('entry', 'both'), tuple(trim(case.get('choices', ())))))
-    res.distinct_add('nontrivial', ('hit', ck, obs['digest']))
+    res.distinct_add('states', ('hit', ck, case.get('entry', 'both'), case.get('idle', 0), tuple(trim(case.get('choices', ())))))
+    res.distinct_add('nontrivial', ('hit', ck, case.get('idle', 0), obs['digest']))
     res.distinct_add('outcomes', canon({k: obs[k] for k in ('announce', 'lookups', 'queue_lookups')}))
     a = obs['announce']
     if a['status'] == 'done' and a['stored']:
@@ -306,7 +338,9 @@ def note_hit(res, case, obs, fixed):
         elif fixed:
             res.tally('interpretation_only:stored_on_fewer_than_all_k_closest')
     if any(lk['hit'] for lk in obs['queue_lookups']):
-        res.witness('accumulate_peers_queued_announcer_after_pong')
+        res.witness('accumulate_peers_queued_announcer')
+    if any(lk['hit'] and lk['datagrams'] for lk in obs['queue_lookups']):
+        res.witness('accumulate_peers_queued_announcer_after_network_traffic')
     if any(lk['hit'] and lk['duration'] > 0 for lk in obs['queue_lookups']):
         res.witness('accumulate_peers_confirmation_overlapped_timers')
     if any(lk['beyond_shortlist'] for lk in obs['lookups']):
@@ -663,11 +697,14 @@ def dfs_parts(net, case, fixed, bound, alpha_name, part, parts, res, cap=None):
     from vf.udpfab import fork_call
     key = blob_key(case['n'], case['ann'], case['hash'])
     entry = case.get('entry', 'finder')
+    idle = case.get('idle', 0)
+    # lookup-only exploration: the announce + idle prefix runs once, here, on the default schedule
+    prepared = hit_prepare(net, case['ann'], key, idle) if case.get('lookup_only') else None
     bad = []
     seqs = {'first': None, 'last': None}
 
     def run(ch):
-        trace, obs = fork_call(hit_case, net, case['ann'], key, tuple(ch.prefix), bound, alpha_name, entry)
+        trace, obs = fork_call(hit_case, net, case['ann'], key, tuple(ch.prefix), bound, alpha_name, entry, idle, prepared)
         ch.trace[:] = trace
         return obs
 
@@ -709,7 +746,7 @@ def dfs_parts(net, case, fixed, bound, alpha_name, part, parts, res, cap=None):
     # determinism self-check: first, last and every violating sequence twice
     for choices, want in [s for s in (seqs['first'], seqs['last']) if s] + bad[:4]:
         for _ in range(2):
-            _, obs = fork_call(hit_case, net, case['ann'], key, tuple(choices), bound, alpha_name, entry)
+            _, obs = fork_call(hit_case, net, case['ann'], key, tuple(choices), bound, alpha_name, entry, idle, prepared)
             res.count('determinism_replays')
             if canon(obs) != want:
                 res.error(f'C12 hit: nondeterministic replay of {case} choices {choices}')
@@ -748,12 +785,21 @@ def work_hit(item, res):
                     res.count('determinism_replays')
                     if canon(again) != canon(obs):
                         res.error(f'C12 hit: nondeterministic default execution {case}')
+            if item.get('selfcheck'):
+                # the same case with stale contact knowledge: blob peers are confirmed by ping before they are queued
+                case2 = dict(case, entry='accumulate', idle=IDLE)
+                _, obs2 = fork_call(hit_case, net, ann, key, (), 0, 'full', 'accumulate', IDLE)
+                note_hit(res, case2, obs2, fixed)
+                for sig, what in judge_hit(case2, obs2, fixed):
+                    res.violation(sig, what, replay_dict(case2))
             if len(res.samples) < 2:
                 res.sample({'case': case, 'announce': obs['announce'],
                             'lookups': [(lk['searcher'], lk['hit']) for lk in obs['lookups']]})
         d = item.get('dfs')
         if d:
             case = dict(base, ann=d['ann'], hash=d['hash'], entry=d.get('entry', 'finder'))
+            if d.get('idle'):
+                case.update(idle=d['idle'], lookup_only=True)
             dfs_parts(net, case, fixed, d['bound'], d['alphabet'], d['part'], d['parts'], res)
         if item.get('expiry'):
             long = item['expiry'].startswith('long')
@@ -1336,7 +1382,7 @@ def plan(tier, seed):
         for part in range(d['parts']):
             items.append({'half': 'hit', 'n': d['n'], 'order': d['order'], 'stagger': d['stagger'], 'seed': seed,
                           'dfs': {'ann': d['ann'], 'hash': d['hash'], 'bound': d['bound'], 'alphabet': d['alphabet'],
-                                  'part': part, 'parts': d['parts'], 'entry': d['entry']}})
+                                  'part': part, 'parts': d['parts'], 'entry': d['entry'], 'idle': d['idle']}})
     counts = list(range(1, 101))
     for lo in range(0, 100, 10):
         items.append({'half': 'paging', 'counts': counts[lo:lo + 10], 'seed': seed})
@@ -1363,7 +1409,7 @@ def dfs_scope(tier):
 
     def add(n, order, stagger, ann, h, bound, alpha, parts=1, entry='finder'):
         out.append({'n': n, 'order': list(order), 'stagger': stagger, 'ann': ann, 'hash': h, 'bound': bound,
-                    'alphabet': alpha, 'parts': parts, 'entry': entry})
+                    'alphabet': alpha, 'parts': parts, 'entry': entry, 'idle': IDLE if entry == 'accumulate' else 0})
     if tier == 'quick':
         for order in join_orders(2):
             for ann in range(2):
@@ -1375,20 +1421,21 @@ def dfs_scope(tier):
         add(4, join_orders(4)[0], 0.0, 3, 'far', 1, 'full', parts=2)
         add(4, join_orders(4)[-1], 0.0, 0, 'far', 1, 'full', parts=2)
         # the queue entry point (Node.accumulate_peers): the confirming ping / pong are datagrams of the lookup phase too
+        # (lookup phase only, after IDLE seconds so that peers need the ping; HOLD = one datagram delayed as long as
+        # possible without a timer firing is an extra deviation here)
         for order in join_orders(2):
             for ann in range(2):
-                add(2, order, 0.0, ann, 'far', 1, 'full', entry='accumulate')
+                add(2, order, 0.0, ann, 'far', 1, 'full+hold', entry='accumulate')
         for ann in (0, 2):
-            add(3, [0, 1, 2], 0.0, ann, 'far', 1, 'full', entry='accumulate')
-        add(4, [0, 1, 2, 3], 0.0, 3, 'far', 1, 'full', parts=2, entry='accumulate')
+            add(3, [0, 1, 2], 0.0, ann, 'far', 1, 'full+hold', entry='accumulate')
     else:
         for order in join_orders(2):
             for ann in range(2):
-                add(2, order, 0.0, ann, 'far', 1, 'full', entry='accumulate')
-        add(2, [0, 1], 0.0, 1, 'far', 2, 'full', parts=4, entry='accumulate')
+                add(2, order, 0.0, ann, 'far', 1, 'full+hold', entry='accumulate')
+        add(2, [0, 1], 0.0, 1, 'far', 2, 'full+hold', parts=2, entry='accumulate')
         for order in join_orders(3):
-            add(3, order, 0.0, 2, 'far', 1, 'full', entry='accumulate')
-        add(4, [0, 1, 2, 3], 0.0, 3, 'far', 1, 'full', parts=2, entry='accumulate')
+            add(3, order, 0.0, 2, 'far', 1, 'full+hold', entry='accumulate')
+        add(4, [0, 1, 2, 3], 0.0, 3, 'far', 1, 'full+hold', parts=2, entry='accumulate')
         for order in join_orders(2):
             for ann in range(2):
                 for h in HASH_NAMES:
@@ -1454,10 +1501,15 @@ def run(ctx):
         rule=('hit: every (n, join order, start stagger 0/3 s, announcer, blob hash in {next to announcer id, next to '
               'bootstrap id, far from all ids}) on the default FIFO schedule; every choice sequence within the deviation '
               'bound (early / non-oldest delivery, duplication, a timer overtaking pending datagrams but never an RPC '
-              'timeout) over the announce+lookup phases of the cases listed in bounds.deviation_cases; announcement '
+              'timeout) over the announce+lookup phases of the cases listed in bounds.deviation_cases, lookups through '
+              'the value finder and, after 1200 idle seconds (contacts no longer known good, so blob peers are confirmed '
+              'by ping), through Node.accumulate_peers (lookup phase only, + HOLD = one datagram delayed until nothing else '
+              'can happen without a timer), announcer must reach the peer queue within (n+2) RPC timeouts; announcement '
               'histories on one 24-48 h timeline of unbroken periodic traffic: every (announcer, hash) announced once, the '
               'same node re-announcing 1 s / 12 h / 24 h-1 s / 24 h 10 min later, a second node announcing 12 h later, a re-announcement '
-              'with every store datagram duplicated, a re-announcement from a new tcp port, probed by every other node at '
+              'with every store datagram duplicated, a re-announcement from a new tcp port, up to three announcers of one '
+              'blob listed in first-announcement order each announcing once or again 12 h later (all 2^3 patterns, probed '
+              'every 12 h and after each of the hourly refresh_node sweeps that follow a wave of expiries), probed by every other node at '
               'latest+24h-1s (found), +24h exactly and +24h+1s (gone), judged against "age counts from the latest '
               'announcement"; the real BlobAnnouncer loop (stub storage with SQLiteStorage policy) for 26 h (quick) / 96 h '
               'then stopped and followed to expiry (thorough); paging: every N = 1..100; term: for every '
@@ -1498,7 +1550,11 @@ def run(ctx):
             'past; success moves it DATA_EXPIRATION/2 ahead), on the virtual clock',
         ],
         expected_witnesses=['announce_stored', 'stored_on_exactly_k_closest', 'deviation_changed_delivery_order',
-                            'deviation_dup', 'deviation_timer', 'paging_needed_more_than_one_request',
+                            'deviation_dup', 'deviation_timer', 'deviation_hold', 'paging_needed_more_than_one_request',
+                            'accumulate_peers_queued_announcer_after_network_traffic',
+                            'accumulate_peers_confirmation_overlapped_timers',
+                            'every_node_ran_hourly_sweep_between_record_expiry_and_probe',
+                            'refreshed_record_found_after_sweep_removed_stale_records_of_same_blob',
                             'lookup_survived_rpc_timeouts', 'deviation_drop', 'deviation_late',
                             'expiry_probed_at_exact_boundary', 'hit_one_second_before_expiry',
                             'found_more_than_24h_after_first_announcement_thanks_to_reannouncement',
@@ -1547,8 +1603,9 @@ def replay(data):
                 log += [canon(p) for p in obs['probes'] if (p['expect'] == 'found') != p['hit']]
             else:
                 key = blob_key(data['n'], data['ann'], data['hash'])
+                prepared = hit_prepare(net, data['ann'], key, data.get('idle', 0)) if data.get('lookup_only') else None
                 _, obs = hit_case(net, data['ann'], key, tuple(data.get('choices', ())), data.get('bound', 0),
-                                  data.get('alphabet', 'full'), data.get('entry', 'finder'))
+                                  data.get('alphabet', 'full'), data.get('entry', 'finder'), data.get('idle', 0), prepared)
                 viol = judge_hit(data, obs, fixed)
                 log.append(canon(obs))
         finally:
